@@ -409,6 +409,20 @@ def sym_pow(a, b):
     """a ** b with CPython/real semantics (5.3): concrete integer exponents are
     expanded, everything else goes through the uninterpreted pow with axioms that the
     identity checker (realalg) knows about."""
+    if isinstance(b, Sym) and b.kind in ("int", "real"):
+        bs = z3.simplify(b.e)
+        if z3.is_int_value(bs):
+            b = bs.as_long()
+        elif z3.is_rational_value(bs):
+            b = fractions.Fraction(bs.numerator_as_long(), bs.denominator_as_long())
+    if isinstance(a, Sym) and a.kind in ("int", "real"):
+        as_ = z3.simplify(a.e)
+        if z3.is_int_value(as_):
+            a = as_.as_long()
+        elif z3.is_rational_value(as_):
+            a = fractions.Fraction(as_.numerator_as_long(), as_.denominator_as_long())
+    if not isinstance(a, Sym) and not isinstance(b, Sym):
+        return a ** b
     if _is_numeric_const(b) and float(b) == int(b) and abs(int(b)) <= 64:
         n = int(b)
         ea = to_z3(a)
